@@ -71,7 +71,11 @@ def isIdle {β : Type} : RState β → Bool
   | _ => false
 
 /-- the moves after which file `j` has pushed its next batch: the reader inside `j` pushes; if no reader is inside `j`, a
-reader that finished its file goes back to the channel, or an idle reader takes the next file name -/
+reader that finished its file goes back to the channel, or an idle reader takes the next file name.
+Soundness is proved (every move is a `stepAt`).  Completeness is not proved; the argument: files are opened as late as
+possible and closed as early as possible, so at every point of the observation the readers occupied here are occupied in
+every execution with the same numbering (a file that has pushed a batch and still has one to push holds a reader in all of
+them; the files before `j` in the list must have been taken before `j`) -/
 def feed (j : Nat) : Nat → St (Nat × Nat) → Option (St (Nat × Nat))
   | 0, _ => none
   | fuel + 1, s =>
